@@ -95,6 +95,22 @@ theorem unlist_edit_creates_only_k (v : SetView) (cur upd : String) (pods : List
   rw [desired_unlist_erase r S k h0 hkS hk]
   exact hperm
 
+/-- **plain scale-out by one from a converged set**: the pods are exactly those of `desired r S`, `replicas` becomes `r + 1`
+    with the annotation untouched; the next reconcile creates the one appended ordinal (`scale_out_appends`) and nothing else -/
+theorem scale_out_edit_creates_only_next (v : SetView) (cur upd : String) (pods : List Pod) (f : Faults) (r : Int)
+    (h0 : 0 ≤ r) (hr : v.replicas = some (r + 1)) (hdel : v.deleting = false)
+    (hperm : (pods.map Pod.ord).Perm (desired r v.slots))
+    (hgood : ∀ p ∈ pods, p.healthy = true ∧ p.rev = upd ∧ p.idOk = true ∧ p.stOk = true)
+    (hrev : ∀ n, newPodRev v cur upd n = upd) :
+    ∃ n, desired (r + 1) v.slots = desired r v.slots ++ [n] ∧
+      (updateStatefulSet v cur upd pods f).1.acts = [.create n upd] ∧
+      (f.hit 0 n = false → (updateStatefulSet v cur upd pods f).2 = .ok) := by
+  obtain ⟨n, hn, -, -, hlt⟩ := desired_succ r v.slots h0
+  have hnot : n ∉ desired r v.slots := fun h => by have := hlt n h; omega
+  refine ⟨n, hn, slot_out_only_gen v cur upd pods f (r + 1) n hr (by rw [hn]; simp) hdel ?_ hgood (hrev n)⟩
+  rw [hn, List.erase_append_right _ hnot]
+  simpa using hperm
+
 /-! non-vacuity: replicas 3, slots [] after the user un-listed 1 (before: replicas 2, slots [1], pods 0 and 2) -/
 private def exV : SetView :=
   { replicas := some (2 + 1), slots := [1].filter (fun s => decide (s ≠ 1)), parallel := false, strat := .rolling,
